@@ -144,6 +144,15 @@ func runTreeProp(c *Ctx, which string) {
 				}, nil)
 			})
 		}
+		if which == "spans" && len(doc) <= 1500 && idx%2 == 1 {
+			// the two tail facts under which blockphase_contOK2 (C02/C04 inline halves) derives the scanner facts for the
+			// containers of the block-phase trees: TailNP for every container, TailSafe for ATX headings
+			orc.Add("tailhyp\t"+hx(doc)+"\t"+blocksExt(doc)+"\t"+blocksFold(doc), "ok", func(got string) {
+				c.report("inline-span-theorem-hypothesis-tail-fact-fails", doc, fam, got, func(x []byte) bool {
+					return c.drv.Ask1("tailhyp\t"+hx(x)+"\t"+blocksExt(x)+"\t"+blocksFold(x)) != "ok"
+				}, nil)
+			})
+		}
 		if which == "coverage" && len(doc) <= 1500 && idx%2 == 0 {
 			// the hypothesis of the block-half theorem drain_coverage (C03): the RefDefCoverOK check never fails along the run
 			orc.Add("coverhyp\t"+hx(doc)+"\t"+blocksExt(doc)+"\t"+blocksFold(doc), "ok", func(got string) {
